@@ -272,6 +272,15 @@ func (r *votesRun) buildEvents() {
 				b.BridgeTokenClaim(n, h, tok, "Votes USD", "USDX", 18),
 				b.BridgeTokenClaim(n, h, tok, "Votes USD", "USDV", 6),
 			}
+		case i == 6 || i == 13:
+			// events whose handler fails for every variant (the token exists already; FX with other
+			// decimals): still observed once, and the nonce is used up
+			e.Kind = "bridge_token_refused"
+			e.Variants = []fix.ClaimFn{
+				b.BridgeTokenClaim(n, h, tok, "Votes USD", "USDV", 18),
+				b.BridgeTokenClaim(n, h, tok, "Votes USD again", "USDV", 18),
+				b.BridgeTokenClaim(n, h, fix.TokenAddr(seed, "votes-fx", i), "Function X", fxtypes.DefaultDenom, 6),
+			}
 		case i%5 == 0:
 			e.Kind = "oracle_set_updated"
 			// a claim of the initial (nonce 0) oracle set: always acceptable by the handler
